@@ -97,6 +97,11 @@ class Run:
         self.seam.separate_hosts = bool(knobs.get("separate_hosts"))
         self.server = None
         self.boots = 0
+        try:
+            self._fds0 = len(os.listdir("/proc/self/fd"))
+        except OSError:
+            self._fds0 = None
+        self.fd_growth = 0
         # the wall clock follows the simulated clock (code that looks at time.time() / file ages sees virtual days pass)
         import time as _time
         self._real_time = _time.time
@@ -137,6 +142,11 @@ class Run:
         _time.time = self._real_time
         self.seam.detach()
         self.sim.teardown()
+        if self._fds0 is not None:
+            try:
+                self.fd_growth = len(os.listdir("/proc/self/fd")) - self._fds0  # descriptors this run left open in the process
+            except OSError:
+                pass
 
     def sse_path(self, *parts):
         return os.path.join(world.sse_dir(), *parts)
